@@ -42,7 +42,7 @@ func (p *c19) Init(w *lib.Worker) error { return initModel() }
 
 // validPair generates a (schema, instance) pair which both the model and the library call valid.
 func validPair(r *lib.Rand, objectRoot bool) (st, it []byte, schema, inst any, ok bool) {
-	g := &gen.SchemaGen{R: r, O: gen.SchemaOpts{MaxDepth: 4, Refs: true, Defaults: true, NoDeps: true, OnlyObjectRoot: objectRoot}}
+	g := &gen.SchemaGen{R: r, O: gen.SchemaOpts{MaxDepth: 4, Refs: true, Defaults: true, NoDeps: true, OnlyObjectRoot: objectRoot, EmptyNames: true}}
 	doc := g.Document()
 	stripNullDefaults(doc)
 	var raw any
@@ -108,6 +108,11 @@ func runValidator(st, it []byte, recycle bool) (*validate.Result, any, sut.Outco
 	o := sut.Guard(func() sut.Outcome {
 		s, _ := sut.Schema(st)
 		data, _ = sut.Value(it)
+		// the one-shot entry point on the same data first (a common pattern: check, then validate for
+		// post-processing): it recycles results, whose leftovers must not reach the result built below
+		if s0, err := sut.Schema(st); err == nil {
+			_ = validate.AgainstSchema(s0, data, strfmt.Default)
+		}
 		var opts []validate.Option
 		if recycle {
 			opts = append(opts, validate.WithRecycleValidators(true))
